@@ -252,7 +252,8 @@ func (c *Trait) PrepareRead(ctx context.Context, cacheEntry *TraitEntry, found b
 	if c.Log.logDebug != nil {
 		c.Log.logDebug(ctx, "cache hit",
 			"name", c.Config.Name,
-			"entry", cacheEntry,
+			// Passing a copy, entry can be updated (expired, served) concurrently with logging.
+			"entry", &TraitEntry{K: cacheEntry.K, V: cacheEntry.V, E: expireAt, C: atomic.LoadInt64(&cacheEntry.C)},
 		)
 	}
 
